@@ -8,7 +8,7 @@ ids=("$@")
 if [ ${#ids[@]} -eq 0 ]; then ids=($(ls selftest/mutants)); fi
 fail=0; n=0; skipped=0
 for id in "${ids[@]}"; do
-  for p in selftest/mutants/$id/*.patch selftest/mutants/$id/*.diff; do
+  for p in selftest/mutants/$id/*.patch selftest/mutants/$id/*.diff selftest/mutants/$id/*.drift; do
     [ -f "$p" ] || continue
     scratch=$(mktemp -d "${TMPDIR:-/tmp}/govc-mut.XXXXXX")
     rsync -a --exclude .git /repo/ "$scratch/"
@@ -17,7 +17,9 @@ for id in "${ids[@]}"; do
     fi
     n=$((n+1))
     out=$(REPO_DIR="$scratch" VERIF_NOEVIDENCE=1 bin/govc check "$id" 2>&1); rc=$?
-    if [ $rc -eq 1 ] && echo "$out" | grep -q "^VIOLATION property=$id"; then
+    if [[ "$p" == *.drift ]] && [ $rc -eq 2 ]; then
+      echo "OK    $id $(basename $p): UNDECIDED as expected (the patch removes identifiers the contract names: contract drift, not reported as a violation)"
+    elif [ $rc -eq 1 ] && echo "$out" | grep -q "^VIOLATION property=$id"; then
       echo "OK    $id $(basename $p): $(echo "$out" | grep -c '^VIOLATION') violation line(s); first: $(echo "$out" | grep '^VIOLATION' | head -1 | sed 's/.*obligation=//')"
     else
       echo "MISS  $id $(basename $p): exit $rc"; echo "$out" | tail -5 | sed 's/^/      /'; fail=$((fail+1))
